@@ -16,9 +16,9 @@ TRUSTED_BASE = [
 PROPS = {
     "C14": {
         "prop_file": "props/C14.v",
-        "scenarios": [{"name": "C14"}, {"name": "file-c14", "timeout": 1200}],
-        "thorough_scenarios": [{"name": "C14-sweep", "no_driver": True, "timeout": 1200}, {"name": "C14-big", "no_driver": True, "timeout": 1200}],
-        "rule": "values: every 2^k +-64 neighbourhood of the framing boundaries (k=7,14,21,28,32), +-2 around every other power of two, plus values stratified uniformly over bit lengths, each with random trailing bytes; plus whole files whose key/value lengths sit at and around every framing boundary reachable in memory (127/128, 255/256, 16383/16384; 2^21 in the thorough tier) through the real writer and reader; non-trivial = distinct value >= 128 (multi-byte encoding); thorough adds the implementation-side sweep of all 2^32 values against the statement",
+        "scenarios": [{"name": "C14"}, {"name": "file-c14", "timeout": 1200}, {"name": "C14-big", "no_driver": True, "timeout": 1200}],
+        "thorough_scenarios": [{"name": "C14-sweep", "no_driver": True, "timeout": 1200}],
+        "rule": "values: every 2^k +-64 neighbourhood of the framing boundaries (k=7,14,21,28,32), +-2 around every other power of two, plus values stratified uniformly over bit lengths, each with random trailing bytes; plus whole files whose key/value lengths sit at and around every framing boundary reachable in memory (127/128, 255/256, 16383/16384; 2^21 in the thorough tier) through the real writer and reader, and one entry with a 2^28-byte value (five-byte prefix; implementation only); non-trivial = distinct value >= 128 (multi-byte encoding); thorough adds the implementation-side sweep of all 2^32 values against the statement",
         "trusted": ["varint functions reached through the cfg(grenad_verif) re-export grenad::verif::{varint_encode32, varint_decode32}"],
         "assumptions": ["u32 arithmetic is modelled as N with explicit mod 2^32 / mod 256 truncations"],
         "not_proved": [],
